@@ -3,6 +3,7 @@ package fr
 import (
 	"encoding/json"
 	"fmt"
+	"time"
 
 	sdk "github.com/cosmos/cosmos-sdk/types"
 
@@ -60,6 +61,7 @@ func replayOnce(b *Base, name string, bz []byte, digests bool, emit func(Step) e
 	if len(acts) == 0 {
 		return fmt.Errorf("empty behaviour")
 	}
+	SetTickUnit(acts, raws, bz)
 	env, err := b.NewEnv(acts[0])
 	if err != nil {
 		return err
@@ -70,7 +72,7 @@ func replayOnce(b *Base, name string, bz []byte, digests bool, emit func(Step) e
 		return err
 	}
 	if err := emit(Step{Trace: name, I: 0, Act: raws[0], Res: Res{Ok: true}, St: st0, Xfers: []Xfer{}, Hooks: []HookCall{},
-		Extra: Extra{ValidateOk: true, Answer: []any{}}, Ev: []EventJ{}, Evm: []map[string]any{}, Rep: 1, Judge: true}); err != nil {
+		Extra: Extra{ValidateOk: true, Answer: []any{}, ModInv: env.ModuleInvariants(env.Ctx)}, Ev: []EventJ{}, Evm: []map[string]any{}, Rep: 1, Judge: true}); err != nil {
 		return err
 	}
 	for i := 1; i < len(acts); i++ {
@@ -101,6 +103,7 @@ func ExportAfter(b *Base, bz []byte) ([]byte, error) {
 	if err := json.Unmarshal(bz, &acts); err != nil {
 		return nil, err
 	}
+	TickUnit = 24 * time.Hour
 	env, err := b.NewEnv(acts[0])
 	if err != nil {
 		return nil, err
